@@ -69,6 +69,8 @@ def build_facts(repo=None, debug_assertions=True, keep=None):
         with open(out) as f:
             facts = json.load(f)
         facts["meta"]["build_s"] = round(time.time() - t0, 2)
+        v = subprocess.run(["rustc", "+nightly", "--version"], capture_output=True, text=True)
+        facts["meta"]["rustc"] = v.stdout.strip() or facts["meta"].get("rustc")
         facts["meta"]["repo"] = repo
         if keep:
             shutil.copy(out, keep)
